@@ -291,6 +291,7 @@ static int cmd_run(const std::string &prop, const std::string &tier, uint64_t se
     j.set("from", J::num((long long)from)); j.set("next", J::num((long long)i)); j.set("runs", J::num((long long)runs)); j.set("cases", J::num((long long)cases));
     j.set("truncated", J::num((long long)truncated)); j.set("rechecked", J::num((long long)rechecked)); j.set("fails", J::num((long long)fails));
     j.set("wall_s_x1000", J::num((long long)((now_s() - t0) * 1000)));
+    if (sim_fopen_failed()) total.add("fault.fopen.fired", sim_fopen_failed());
     J c = J::obj(); for (auto &kv : total.c) c.set(kv.first, J::num((long long)kv.second)); j.set("counters", c);
     J wj = J::obj(); for (auto &kv : worlds) wj.set(kv.first, J::num((long long)kv.second)); j.set("worlds", wj);
     J hs = J::arr(); for (auto h : nontrivial) hs.push(J::str(hex64(h))); j.set("nontrivial", hs);
@@ -300,6 +301,19 @@ static int cmd_run(const std::string &prop, const std::string &tier, uint64_t se
     printf("STATS %s\n", j.dump().c_str());
     printf("DONE %llu\n", (unsigned long long)i);
     fflush(stdout);
+    return 0;
+}
+
+static int cmd_hashes(const std::string &prop, const std::string &tier, uint64_t seed, uint64_t from, uint64_t to, const std::string &scratch) {
+    for (uint64_t i = from; i < to; i++) {
+        Plan p = generate_plan(prop, tier, seed, i, g_variant);
+        arm_watchdog(cpu_budget(p));
+        RunOut out;
+        execute_plan(p, out, false, scratch);
+        disarm_watchdog();
+        uint64_t sh = 1469598103934665603ULL; for (int d : out.sched) sh = fnv1a(&d, sizeof d, sh);
+        printf("H %llu %s %s %d %llu %d\n", (unsigned long long)i, hex64(out.trace).c_str(), hex64(sh).c_str(), out.failed ? 1 : 0, (unsigned long long)out.cases, out.truncated ? 1 : 0);
+    }
     return 0;
 }
 
@@ -362,6 +376,7 @@ int main(int argc, char **argv) {
     else if (cmd == "gen") rc = cmd_gen(a["prop"], tier, seed, strtoull(a["index"].c_str(), nullptr, 0), a.count("casek") ? atoi(a["casek"].c_str()) : -1, a.count("casem") ? atoi(a["casem"].c_str()) : 1);
     else if (cmd == "run") rc = cmd_run(a["prop"], tier, seed, strtoull(a["from"].c_str(), nullptr, 0), strtoull(a["to"].c_str(), nullptr, 0), scratch,
                                         a.count("deadline") ? atof(a["deadline"].c_str()) : 0, a.count("recheck") ? atoi(a["recheck"].c_str()) : 50);
+    else if (cmd == "hashes") rc = cmd_hashes(a["prop"], tier, seed, strtoull(a["from"].c_str(), nullptr, 0), strtoull(a["to"].c_str(), nullptr, 0), scratch);
     else if (cmd == "replay" && pos.size() > 1) rc = cmd_replay(pos[1], scratch, a.count("verbose"));
     else if (cmd == "shrink" && pos.size() > 1) rc = cmd_shrink(pos[1], a["out"], scratch, a.count("max") ? atoi(a["max"].c_str()) : 400);
     if (!a.count("scratch")) { std::string c = "rm -rf '" + scratch + "'"; int r = system(c.c_str()); (void)r; }
